@@ -14,6 +14,7 @@
 /* TODO: wsapi should be factored out in a separate file */
 #include "myth_wsqueue_func.h"
 #include "myth_wls_func.h"
+#include "myth_verif.h"
 
 /* --------------------------------
    --- global initialization functions 
@@ -724,11 +725,16 @@ myth_thread_t myth_wsapi_runqueue_take(int victim,
   //Increment base
   b=q->base;
   q->base=b+1;
+  MYTH_VERIF_EV(Q_STORE_BASE, q, b + 1);
+  MYTH_VERIF_POINT(WSAPI_TAKE_AFTER_INC);
   myth_wsqueue_rwbarrier();
+  MYTH_VERIF_POINT(WSAPI_TAKE_AFTER_FENCE);
   top=q->top;
+  MYTH_VERIF_EV(Q_LOAD_TOP, q, top);
   if (b<top){
     ret=q->ptr[b];
     if ((!decidefn) || decidefn(ret,udata)){
+      MYTH_VERIF_COV(WSAPI_TAKE_OK);
       //q->ptr[b]=NULL;
       //invalidate cache
       //fprintf(stderr,"%d cache Invalidate\n",victim);
@@ -748,6 +754,7 @@ myth_thread_t myth_wsapi_runqueue_take(int victim,
 #endif
       return ret;
     }
+    MYTH_VERIF_COV(WSAPI_TAKE_DECLINED);
     myth_wsqueue_wbarrier();
   }
   q->base=b;
@@ -785,13 +792,17 @@ myth_thread_t myth_wsapi_runqueue_peek(int victim,void *ptr,size_t *psize) {
       //Increment base
       b=q->base;
       q->base=b+1;
+      MYTH_VERIF_EV(Q_STORE_BASE, q, b + 1);
+      MYTH_VERIF_POINT(WSAPI_PEEK_AFTER_INC);
       myth_wsqueue_rwbarrier();
       top=q->top;
+      MYTH_VERIF_EV(Q_LOAD_TOP, q, top);
       if (b<top){
 	//fprintf(stderr,"%d cache update\n",victim);
 	int s;
 	myth_thread_t th;
 	th=q->ptr[b];
+	MYTH_VERIF_COV(WSAPI_PEEK_FILLED);
 	size_t thcs=myth_wsapi_get_hint_size(th);
 	void* thcd=myth_wsapi_get_hint_ptr(th);
 	//Copy data
